@@ -215,6 +215,26 @@ func (c *CEnv) eval(e *CExpr) Val {
 		return Val{T: x.mkStruct(ty, fs), Ty: ty}
 	case "call":
 		return c.evalCall(e)
+	case "apply":
+		fv := c.eval(e.Args[0])
+		if fv.Ty.K != TOpaque || fv.Ty.Go == nil {
+			c.errf(e, "application of a non-function value")
+		}
+		sig, ok := fv.Ty.Go.Underlying().(*types.Signature)
+		if !ok {
+			c.errf(e, "application of a non-function value")
+		}
+		var vs []Val
+		for _, a := range e.Args[1:] {
+			v := c.eval(a)
+			// numeric arguments of a float64 parameter
+			vs = append(vs, v)
+		}
+		for i := range vs {
+			pty := x.w.goTy(sig.Params().At(i).Type(), x.model.BV)
+			vs[i] = Val{T: x.coerceTo(vs[i], pty), Ty: pty}
+		}
+		return x.applyFuncValue(fv, sig, vs)
 	}
 	c.errf(e, "unsupported expression kind %s", e.Kind)
 	panic("unreachable")
